@@ -12,12 +12,33 @@ Lemma cset_ffnd s o ob : ffnd s -> ffnd (cset s o ob).
 Proof.
   intro F. split.
   - destruct (cset_frame s o ob F) as (_ & _ & _ & _ & -> & _). apply F.
-  - unfold cset, saved. sst. unfold cset_mid.
+  - rewrite cset_eq. unfold saved. sst. unfold cset_mid.
     set (s1 := hput s o (touched s ob)). assert (F1 : ffnd s1) by exact F.
     set (req := (if has (cache s1) (o_id ob) then 0 else 1)%Z).
     pose proof (flushes_ffnd _ _ (compact_flushes s1 req F1) F1) as [_ Hn].
     destruct (c_maxcache _ =? 0)%Z; [exact Hn | sst; apply NoDup_upsert_keys; exact Hn].
 Qed.
+
+(* no live cookie for a dead ID *)
+Definition cks_ok (D : key -> Prop) (cks : list cookie) : Prop := forall k, In (CkLive k) cks -> ~ D k.
+
+Lemma cks_ok_nil D : cks_ok D [].
+Proof. intros k []. Qed.
+Lemma cks_ok_app D a b : cks_ok D a -> cks_ok D b -> cks_ok D (a ++ b).
+Proof. intros Ha Hb k Hin. apply in_app_iff in Hin. destruct Hin; [apply Ha | apply Hb]; assumption. Qed.
+Lemma cks_ok_del D : cks_ok D [CkDelete].
+Proof. intros k [H|[]]. discriminate. Qed.
+Lemma cks_ok_live D k : ~ D k -> cks_ok D [CkLive k].
+Proof. intros H k' [E|[]]. injection E as <-. exact H. Qed.
+Lemma inv_fresh_nD b base X D s : inv b base X D s -> ~ D (KGen (supply s)).
+Proof. intros I HD. apply (i_Dd _ _ _ _ _ I) in HD. simpl in HD. lia. Qed.
+#[global] Hint Resolve cks_ok_nil cks_ok_app cks_ok_del cks_ok_live : cks.
+
+Lemma ffnd_same s s' : plan s' = plan s -> cache s' = cache s -> ffnd s -> ffnd s'.
+Proof. unfold ffnd. intros -> ->. auto. Qed.
+
+Lemma ffnd_halloc s v : ffnd s -> ffnd (fst (halloc s v)).
+Proof. apply ffnd_same; reflexivity. Qed.
 
 Definition rg_ob1 s ob := mkObj (KGen (supply s)) (set_created (o_rec ob) (now s)).
 Definition rg_s1 s o ob := hput (drawn1 s) o (rg_ob1 s ob).
@@ -46,7 +67,7 @@ Proof.
   unfold rg_s2 at 1. rewrite (hget_cset _ _ _ _ F1 H1). rewrite Nat.eqb_refl. fold (rg_ob2 s o ob).
   fold (rg_ref s o ob).
   change (halloc (rg_s2 s o ob) (rg_ref s o ob)) with (rg_s3 s o ob, length (heap (rg_s2 s o ob))).
-  assert (F3 : ffnd (rg_s3 s o ob)) by (apply (cset_ffnd _ o (rg_ob1 s ob) F1)).
+  assert (F3 : ffnd (rg_s3 s o ob)) by (unfold rg_s3; apply ffnd_halloc; unfold rg_s2; apply cset_ffnd; exact F1).
   assert (H3 : hget (rg_s3 s o ob) (length (heap (rg_s2 s o ob))) = Some (rg_ref s o ob)).
   { unfold rg_s3. rewrite hget_halloc. rewrite Nat.eqb_refl. reflexivity. }
   cbv beta iota. rewrite (cache_set_ff _ _ _ F3 H3). reflexivity.
@@ -62,7 +83,7 @@ Lemma regen_frames s o ob : ffnd s ->
 Proof.
   intros F. assert (F1 : ffnd (rg_s1 s o ob)) by exact F.
   pose proof (cset_frame _ o (rg_ob1 s ob) F1) as HA.
-  assert (F3 : ffnd (rg_s3 s o ob)) by (apply (cset_ffnd _ o (rg_ob1 s ob) F1)).
+  assert (F3 : ffnd (rg_s3 s o ob)) by (unfold rg_s3; apply ffnd_halloc; unfold rg_s2; apply cset_ffnd; exact F1).
   pose proof (cset_frame _ (length (heap (rg_s2 s o ob))) (rg_ref s o ob) F3) as HB.
   change (cset (rg_s1 s o ob) o (rg_ob1 s ob)) with (rg_s2 s o ob) in HA.
   change (cset (rg_s3 s o ob) (length (heap (rg_s2 s o ob))) (rg_ref s o ob)) with (rg_s4 s o ob) in HB.
@@ -70,20 +91,20 @@ Proof.
   destruct HB as (B1 & B2 & B3 & B4 & B5 & B6 & B7).
   assert (Hlen : length (heap (rg_s2 s o ob)) = length (heap s)).
   { rewrite A7. unfold rg_s1, hput, drawn1. sst. apply replace_nth_length. }
-  assert (C1 : supply (rg_s3 s o ob) = supply (rg_s2 s o ob)) by reflexivity.
-  assert (C2 : pending (rg_s3 s o ob) = pending (rg_s2 s o ob)) by reflexivity.
-  assert (C3 : conf (rg_s3 s o ob) = conf (rg_s2 s o ob)) by reflexivity.
-  assert (C4 : now (rg_s3 s o ob) = now (rg_s2 s o ob)) by reflexivity.
-  assert (C5 : plan (rg_s3 s o ob) = plan (rg_s2 s o ob)) by reflexivity.
-  assert (C6 : graves (rg_s3 s o ob) = graves (rg_s2 s o ob)) by reflexivity.
+  assert (C1 : supply (rg_s3 s o ob) = supply (rg_s2 s o ob)) by (unfold rg_s3, halloc; sst; reflexivity).
+  assert (C2 : pending (rg_s3 s o ob) = pending (rg_s2 s o ob)) by (unfold rg_s3, halloc; sst; reflexivity).
+  assert (C3 : conf (rg_s3 s o ob) = conf (rg_s2 s o ob)) by (unfold rg_s3, halloc; sst; reflexivity).
+  assert (C4 : now (rg_s3 s o ob) = now (rg_s2 s o ob)) by (unfold rg_s3, halloc; sst; reflexivity).
+  assert (C5 : plan (rg_s3 s o ob) = plan (rg_s2 s o ob)) by (unfold rg_s3, halloc; sst; reflexivity).
+  assert (C6 : graves (rg_s3 s o ob) = graves (rg_s2 s o ob)) by (unfold rg_s3, halloc; sst; reflexivity).
   assert (C7 : length (heap (rg_s3 s o ob)) = S (length (heap (rg_s2 s o ob)))).
   { unfold rg_s3, halloc. sst. rewrite app_length. simpl. lia. }
-  assert (D1 : supply (rg_s1 s o ob) = (supply s + 1)%N) by reflexivity.
-  assert (D2 : pending (rg_s1 s o ob) = pending s) by reflexivity.
-  assert (D3 : conf (rg_s1 s o ob) = conf s) by reflexivity.
-  assert (D4 : now (rg_s1 s o ob) = now s) by reflexivity.
-  assert (D5 : plan (rg_s1 s o ob) = plan s) by reflexivity.
-  assert (D6 : graves (rg_s1 s o ob) = graves s) by reflexivity.
+  assert (D1 : supply (rg_s1 s o ob) = (supply s + 1)%N) by (unfold rg_s1, drawn1; sst; reflexivity).
+  assert (D2 : pending (rg_s1 s o ob) = pending s) by (unfold rg_s1, drawn1; sst; reflexivity).
+  assert (D3 : conf (rg_s1 s o ob) = conf s) by (unfold rg_s1, drawn1; sst; reflexivity).
+  assert (D4 : now (rg_s1 s o ob) = now s) by (unfold rg_s1, drawn1; sst; reflexivity).
+  assert (D5 : plan (rg_s1 s o ob) = plan s) by (unfold rg_s1, drawn1; sst; reflexivity).
+  assert (D6 : graves (rg_s1 s o ob) = graves s) by (unfold rg_s1, drawn1; sst; reflexivity).
   split; repeat split; congruence.
 Qed.
 
@@ -119,7 +140,7 @@ Proof.
   unfold regen. apply inv_set_pending; [exact I6|].
   intros d k Hin. apply in_app_iff in Hin. destruct Hin as [Hin|[Hin|[]]].
   - eapply (i_fp _ _ _ _ _ I6); exact Hin.
-  - injection Hin as _ <-. rewrite B1. exact Hk1.
+  - apply (f_equal snd) in Hin. cbn [snd] in Hin. subst k. rewrite B1. exact Hk1.
 Qed.
 
 (* the handle after RegenerateID *)
@@ -129,12 +150,12 @@ Proof.
   intros F Ho. assert (F1 : ffnd (rg_s1 s o ob)) by exact F.
   assert (H1 : hget (rg_s1 s o ob) o = Some (rg_ob1 s ob)).
   { unfold rg_s1. apply hget_hput_same. apply hget_Some_lt in Ho. exact Ho. }
-  assert (F3 : ffnd (rg_s3 s o ob)) by (apply (cset_ffnd _ o (rg_ob1 s ob) F1)).
+  assert (F3 : ffnd (rg_s3 s o ob)) by (unfold rg_s3; apply ffnd_halloc; unfold rg_s2; apply cset_ffnd; exact F1).
   assert (H3 : hget (rg_s3 s o ob) (length (heap (rg_s2 s o ob))) = Some (rg_ref s o ob)).
   { unfold rg_s3. rewrite hget_halloc. rewrite Nat.eqb_refl. reflexivity. }
   destruct (regen_frames s o ob F) as [(A1 & A2 & A3 & A4 & A5 & A6 & A7) _].
   assert (Hlt : o < length (heap (rg_s2 s o ob))) by (rewrite A5; eapply hget_Some_lt; exact Ho).
-  change (hget (regen s o ob) o) with (hget (rg_s4 s o ob) o). unfold rg_s4.
+  unfold regen, hget. sst. fold (hget (rg_s4 s o ob) o). unfold rg_s4.
   rewrite (hget_cset _ _ _ _ F3 H3).
   destruct (Nat.eqb (length (heap (rg_s2 s o ob))) o) eqn:E; [apply Nat.eqb_eq in E; lia|].
   unfold rg_s3. rewrite hget_halloc_old by exact Hlt. unfold rg_s2.
@@ -189,4 +210,389 @@ Proof.
   split.
   - unfold created. apply inv_cset; [exact I1 | exact H1 | apply (i_b _ _ _ _ _ I) | exact HnDn].
   - split; [apply (i_b _ _ _ _ _ I)|]. exists (newobj s q). split; [apply created_handle; exact F | exact HnDn].
+Qed.
+
+(* ------------------------------------------------------------- Start *)
+
+Definition start_none (s : st) (q : request) (cks : list cookie) : st * result (option nat) * list cookie :=
+  if q_create q then let '(s, res, nck) := create_session s q in (s, res, cks ++ nck) else (s, Ok None, cks).
+
+Definition upd_req (s : st) (q : request) : rec -> rec :=
+  fun r => set_ua (set_ip (set_access r (now s)) (q_addr q)) (q_ua q).
+
+Definition rec_valid (c : cfg) (t : Z) (q : request) (r : rec) : bool :=
+  negb (c_expiry c <=? since (r_access r) t)%Z && ip_ok (c_acceptip c) (r_ip r) (q_addr q)
+  && ua_ok (c_acceptua c) (r_ua r) (q_ua q).
+
+Definition start_found (c : cfg) (s : st) (q : request) (k : key) (o : nat) (ob : obj) (cks : list cookie)
+  : st * result (option nat) * list cookie :=
+  let r := o_rec ob in
+  if negb (rec_valid c (now s) q r) then
+    let '(s, res, dck) := destroy s o (had_cookie q) in
+    match res with
+    | Ok _ =>
+      if q_create q then
+        let '(s, res, nck) := create_session s q in (s, res, cks ++ dck ++ nck)
+      else (s, Ok None, cks ++ dck)
+    | Err e => (s, Err e, cks)
+    | Panic e => (s, Panic e, cks)
+    end
+  else
+    let age := since (r_created r) (now s) in
+    let isref := match r_ref r with Some _ => true | None => false end in
+    let '(s, step, cks) :=
+      if negb isref && (c_idexpiry c <=? age)%Z then
+        let '(s, res, rck) := regenerate s o in (s, res, cks ++ rck)
+      else if (sat_add (c_idexpiry c) (c_grace c) <=? age)%Z then
+        let '(s, ok) := cache_delete s k in
+        (s, if ok then Err EExpiredID else Err EDeleteExpired, cks)
+      else (s, Ok tt, cks) in
+    match step with
+    | Err e => (s, Err e, cks)
+    | Panic e => (s, Panic e, cks)
+    | Ok _ =>
+      let '(s, fr) := if isref then follow (S (N.to_nat (supply s))) s o else (s, Ok o) in
+      match fr with
+      | Err e => (s, Err e, cks)
+      | Panic e => (s, Panic e, cks)
+      | Ok o' =>
+        let cks := if isref then
+                     match hget s o' with Some ob' => cks ++ [CkLive (o_id ob')] | None => cks end
+                   else cks in
+        let s := hupd s o' (upd_req s q) in
+        (s, Ok (Some o'), cks)
+      end
+    end.
+
+Lemma start_eq s q :
+  start s q =
+  match q_cookie q with
+  | CKey k =>
+    let '(s1, r) := cache_get s k in
+    match r with
+    | None => (s1, Err EGet, [])
+    | Some None => start_none s1 q [CkDelete]
+    | Some (Some o) =>
+      match hget s1 o with
+      | None => (s1, Panic EGet, [])
+      | Some ob => start_found (conf s) s1 q k o ob []
+      end
+    end
+  | _ => start_none s q []
+  end.
+Proof.
+  unfold start. destruct (q_cookie q) as [|k|n]; try reflexivity.
+  destruct (cache_get s k) as [s1 [[o|]|]]; try reflexivity.
+Qed.
+
+Definition isref (r : rec) : bool := match r_ref r with Some _ => true | None => false end.
+
+Lemma sf_invalid c s q k o ob cks : plan s = [] -> hget s o = Some ob ->
+  rec_valid c (now s) q (o_rec ob) = false ->
+  start_found c s q k o ob cks =
+  (if q_create q then
+     let '(s', res, nck) := create_session (fst (cache_delete s (o_id ob))) q in (s', res, cks ++ [CkDelete] ++ nck)
+   else (fst (cache_delete s (o_id ob)), Ok None, cks ++ [CkDelete])).
+Proof.
+  intros Hp Ho Hv. unfold start_found. cbv zeta. rewrite Hv. cbn [negb].
+  rewrite (destroy_ff _ _ _ _ Hp Ho). reflexivity.
+Qed.
+
+Lemma sf_rotate c s q k o ob cks : ffnd s -> hget s o = Some ob ->
+  rec_valid c (now s) q (o_rec ob) = true -> r_ref (o_rec ob) = None ->
+  (c_idexpiry c <=? since (r_created (o_rec ob)) (now s))%Z = true ->
+  start_found c s q k o ob cks =
+  (hupd (regen s o ob) o (upd_req (regen s o ob) q), Ok (Some o), cks ++ [CkLive (KGen (supply s))]).
+Proof.
+  intros F Ho Hv Hr Ha. unfold start_found. cbv zeta. rewrite Hv, Hr, Ha. cbn [negb andb].
+  rewrite (regenerate_ff _ _ _ F Ho). reflexivity.
+Qed.
+
+Lemma sf_backstop c s q k o ob cks : plan s = [] ->
+  rec_valid c (now s) q (o_rec ob) = true ->
+  negb (isref (o_rec ob)) && (c_idexpiry c <=? since (r_created (o_rec ob)) (now s))%Z = false ->
+  (sat_add (c_idexpiry c) (c_grace c) <=? since (r_created (o_rec ob)) (now s))%Z = true ->
+  start_found c s q k o ob cks = (fst (cache_delete s k), Err EExpiredID, cks).
+Proof.
+  intros Hp Hv Hn Hb. unfold start_found. cbv zeta. rewrite Hv. cbn [negb]. unfold isref in Hn. rewrite Hn, Hb.
+  rewrite (cache_delete_ff _ _ Hp). reflexivity.
+Qed.
+
+Lemma sf_plain c s q k o ob cks :
+  rec_valid c (now s) q (o_rec ob) = true -> r_ref (o_rec ob) = None ->
+  (c_idexpiry c <=? since (r_created (o_rec ob)) (now s))%Z = false ->
+  (sat_add (c_idexpiry c) (c_grace c) <=? since (r_created (o_rec ob)) (now s))%Z = false ->
+  start_found c s q k o ob cks = (hupd s o (upd_req s q), Ok (Some o), cks).
+Proof.
+  intros Hv Hr Ha Hb. unfold start_found. cbv zeta. rewrite Hv, Hr, Ha, Hb. reflexivity.
+Qed.
+
+Lemma sf_ref c s q k o ob cks t :
+  rec_valid c (now s) q (o_rec ob) = true -> r_ref (o_rec ob) = Some t ->
+  (sat_add (c_idexpiry c) (c_grace c) <=? since (r_created (o_rec ob)) (now s))%Z = false ->
+  start_found c s q k o ob cks =
+  (let '(s1, fr) := follow (S (N.to_nat (supply s))) s o in
+   match fr with
+   | Err e => (s1, Err e, cks)
+   | Panic e => (s1, Panic e, cks)
+   | Ok o' => (hupd s1 o' (upd_req s1 q), Ok (Some o'),
+               match hget s1 o' with Some ob' => cks ++ [CkLive (o_id ob')] | None => cks end)
+   end).
+Proof.
+  intros Hv Hr Hb. unfold start_found. cbv zeta. rewrite Hv, Hr, Hb. cbn [negb andb].
+  destruct (follow _ s o) as [s1 [o'| |]]; reflexivity.
+Qed.
+
+(* ---------------------------------------------- invariant through Start *)
+
+Lemma hok_hupd b D s o o' f : hok b D s o -> hok b D (hupd s o' f) o.
+Proof.
+  intros [Hb [ob [Ho HnD]]]. split; [exact Hb|]. rewrite hget_hupd.
+  destruct (Nat.eqb o' o) eqn:E.
+  - apply Nat.eqb_eq in E. subst o'. rewrite Ho. eexists. split; [reflexivity | exact HnD].
+  - exists ob. split; assumption.
+Qed.
+
+Lemma follow_inv b base D : forall fuel s o, inv b base NX D s -> hok b D s o ->
+  exists s' r, follow fuel s o = (s', r) /\ inv b base NX D s' /\
+    match r with Ok o' => hok b D s' o' | Err _ => True | Panic _ => False end.
+Proof.
+  induction fuel as [|f IH]; intros s o I [Hbo [ob [Ho HnD]]]; cbn [follow]; rewrite Ho.
+  - destruct (r_ref (o_rec ob)); eexists; eexists; (split; [reflexivity|]); (split; [exact I|]);
+      [exact Logic.I | split; [exact Hbo | exists ob; split; assumption]].
+  - destruct (r_ref (o_rec ob)) as [t|].
+    + destruct (cache_get_inv _ _ _ _ _ t I) as (s1 & r & E & I1 & Hr). rewrite E.
+      destruct r as [o'|].
+      * destruct Hr as [Hbo' [ob' (Ho' & _ & HnD' & _)]]. apply IH; [exact I1|].
+        split; [exact Hbo' | exists ob'; split; assumption].
+      * eexists; eexists; (split; [reflexivity|]); split; [exact I1 | exact Logic.I].
+    + eexists; eexists; (split; [reflexivity|]); split; [exact I | split; [exact Hbo | exists ob; split; assumption]].
+Qed.
+
+Definition res_ok (b : nat) (D : key -> Prop) (s : st) (res : result (option nat)) : Prop :=
+  match res with Ok (Some o) => hok b D s o | Ok None => True | Err _ => True | Panic _ => False end.
+
+Lemma start_none_inv b base D s q cks : inv b base NX D s -> cks_ok D cks ->
+  exists s' res cks', start_none s q cks = (s', res, cks') /\ inv b base NX D s' /\ res_ok b D s' res /\ cks_ok D cks'.
+Proof.
+  intros I Hck. pose proof (inv_fresh_nD _ _ _ _ _ I) as Hn. unfold start_none. destruct (q_create q).
+  - rewrite create_session_ff by (eapply inv_ffnd; exact I).
+    destruct (created_inv _ _ _ _ q I) as [I' H']. do 3 eexists. split; [reflexivity|]. split; [exact I'|]. split; [exact H' | auto with cks].
+  - do 3 eexists. split; [reflexivity|]. split; [exact I|]. split; [exact Logic.I | exact Hck].
+Qed.
+
+Lemma start_found_inv b base D c s q k o ob cks :
+  inv b base NX D s -> hget s o = Some ob -> b <= o -> ~ D (o_id ob) -> cks_ok D cks ->
+  exists s' res cks', start_found c s q k o ob cks = (s', res, cks') /\ inv b base NX D s' /\ res_ok b D s' res /\ cks_ok D cks'.
+Proof.
+  intros I Ho Hbo HnD Hck. assert (F : ffnd s) by (eapply inv_ffnd; exact I).
+  assert (Hp : plan s = []) by apply F. pose proof (inv_fresh_nD _ _ _ _ _ I) as Hn.
+  destruct (rec_valid c (now s) q (o_rec ob)) eqn:Hv.
+  - destruct (r_ref (o_rec ob)) as [t|] eqn:Hr.
+    + (* reference record *)
+      destruct (sat_add (c_idexpiry c) (c_grace c) <=? since (r_created (o_rec ob)) (now s))%Z eqn:Hb.
+      * rewrite sf_backstop; [| exact Hp | exact Hv | unfold isref; rewrite Hr; reflexivity | exact Hb].
+        do 3 eexists. split; [reflexivity|]. split; [apply inv_cache_delete; exact I|]. split; [exact Logic.I | exact Hck].
+      * rewrite (sf_ref _ _ _ _ _ _ _ t Hv Hr Hb).
+        destruct (follow_inv b base D (S (N.to_nat (supply s))) s o I) as (s1 & fr & E & I1 & Hfr).
+        { split; [exact Hbo | exists ob; split; assumption]. }
+        rewrite E. destruct fr as [o'|e|e]; [|do 3 eexists; split; [reflexivity|]; split; [exact I1|]; split; [exact Logic.I | exact Hck] | contradiction].
+        do 3 eexists. split; [reflexivity|]. split; [apply inv_hupd; [exact I1 | reflexivity]|].
+        split; [apply hok_hupd; exact Hfr|].
+        destruct Hfr as [_ [ob' [Ho' HnD']]]. rewrite Ho'. auto with cks.
+    + destruct (c_idexpiry c <=? since (r_created (o_rec ob)) (now s))%Z eqn:Ha.
+      * rewrite (sf_rotate _ _ _ _ _ _ _ F Ho Hv Hr Ha). do 3 eexists. split; [reflexivity|]. split; [|split].
+        -- apply inv_hupd; [apply regen_inv; assumption | reflexivity].
+        -- apply hok_hupd. split; [exact Hbo|]. exists (rg_ob2 s o ob). split; [apply regen_handle; assumption | exact Hn].
+        -- auto with cks.
+      * destruct (sat_add (c_idexpiry c) (c_grace c) <=? since (r_created (o_rec ob)) (now s))%Z eqn:Hb.
+        -- rewrite sf_backstop; [| exact Hp | exact Hv | rewrite Ha; apply andb_false_r | exact Hb].
+           do 3 eexists. split; [reflexivity|]. split; [apply inv_cache_delete; exact I|]. split; [exact Logic.I | exact Hck].
+        -- rewrite (sf_plain _ _ _ _ _ _ _ Hv Hr Ha Hb). do 3 eexists. split; [reflexivity|]. split; [|split].
+           ++ apply inv_hupd; [exact I | reflexivity].
+           ++ apply hok_hupd. split; [exact Hbo | exists ob; split; assumption].
+           ++ exact Hck.
+  - rewrite (sf_invalid _ _ _ _ _ _ _ Hp Ho Hv).
+    assert (I1 : inv b base NX D (fst (cache_delete s (o_id ob)))) by (apply inv_cache_delete; exact I).
+    pose proof (inv_fresh_nD _ _ _ _ _ I1) as Hn1.
+    destruct (q_create q).
+    + rewrite create_session_ff by (eapply inv_ffnd; exact I1).
+      destruct (created_inv _ _ _ _ q I1) as [I' H']. do 3 eexists. split; [reflexivity|]. split; [exact I'|]. split; [exact H' | auto with cks].
+    + do 3 eexists. split; [reflexivity|]. split; [exact I1|]. split; [exact Logic.I | auto with cks].
+Qed.
+
+Lemma start_inv b base D s q : inv b base NX D s ->
+  exists s' res cks, start s q = (s', res, cks) /\ inv b base NX D s' /\ res_ok b D s' res /\ cks_ok D cks.
+Proof.
+  intro I. rewrite start_eq. destruct (q_cookie q) as [|k|n]; try (apply start_none_inv; [exact I | apply cks_ok_nil]).
+  destruct (cache_get_inv _ _ _ _ _ k I) as (s1 & r & E & I1 & Hr). rewrite E.
+  destruct r as [o|]; [|apply start_none_inv; [exact I1 | apply cks_ok_del]].
+  destruct Hr as [Hbo [ob (Ho & _ & HnD & _)]]. rewrite Ho.
+  apply start_found_inv; try assumption. apply cks_ok_nil.
+Qed.
+
+(* ------------------------------------------ objects keep their IDs (frame) *)
+
+Definition ids_pres (s s' : st) : Prop :=
+  forall o ob, hget s o = Some ob -> exists ob', hget s' o = Some ob' /\ o_id ob' = o_id ob.
+
+Lemma ids_pres_refl s : ids_pres s s.
+Proof. intros o ob H. exists ob. split; [exact H | reflexivity]. Qed.
+
+Lemma ids_pres_trans s1 s2 s3 : ids_pres s1 s2 -> ids_pres s2 s3 -> ids_pres s1 s3.
+Proof.
+  intros H12 H23 o ob H. destruct (H12 o ob H) as [ob2 [H2 E2]]. destruct (H23 o ob2 H2) as [ob3 [H3 E3]].
+  exists ob3. split; [exact H3 | congruence].
+Qed.
+
+Lemma ids_pres_heap s s' : heap s' = heap s -> ids_pres s s'.
+Proof. intros E o ob H. exists ob. unfold hget in *. rewrite E. split; [exact H | reflexivity]. Qed.
+
+Lemma ids_pres_hupd s o f : ids_pres s (hupd s o f).
+Proof.
+  intros o' ob H. rewrite hget_hupd. destruct (Nat.eqb o o') eqn:E.
+  - apply Nat.eqb_eq in E. subst o'. rewrite H. eexists. split; reflexivity.
+  - exists ob. split; [exact H | reflexivity].
+Qed.
+
+Lemma ids_pres_halloc s v : ids_pres s (fst (halloc s v)).
+Proof.
+  intros o ob H. exists ob. split; [|reflexivity]. rewrite hget_halloc_old; [exact H | eapply hget_Some_lt; exact H].
+Qed.
+
+Lemma ids_pres_cset s o ob : ffnd s -> hget s o = Some ob -> ids_pres s (cset s o ob).
+Proof.
+  intros F Ho o' ob' H. rewrite (hget_cset _ _ _ _ F Ho). destruct (Nat.eqb o o') eqn:E.
+  - apply Nat.eqb_eq in E. subst o'. rewrite Ho in H. injection H as <-. eexists. split; reflexivity.
+  - exists ob'. split; [exact H | reflexivity].
+Qed.
+
+Lemma hok_ids b D s s' o : ids_pres s s' -> hok b D s o -> hok b D s' o.
+Proof.
+  intros Hi [Hb [ob [Ho HnD]]]. split; [exact Hb|]. destruct (Hi o ob Ho) as [ob' [Ho' E]].
+  exists ob'. split; [exact Ho' | rewrite E; exact HnD].
+Qed.
+
+Lemma cache_delete_heap s k : plan s = [] -> heap (fst (cache_delete s k)) = heap s.
+Proof. intro H. rewrite cache_delete_ff by exact H. reflexivity. Qed.
+
+Lemma loaded_heap s k r es : ffnd s -> heap (loaded s k r es) = heap s ++ [mkObj k r].
+Proof.
+  intro F. rewrite loaded_eq. cbv zeta. destruct (c_maxcache (conf s) =? 0)%Z; [reflexivity|]. sst.
+  destruct (compact_frame (set_heap (set_evs s (es ++ evs s)) (heap s ++ [mkObj k r])) 1 F) as (-> & _). reflexivity.
+Qed.
+
+Lemma cache_get_ids s k : ffnd s -> ids_pres s (fst (cache_get s k)).
+Proof.
+  intro F. pose proof (cache_get_ff s k (proj1 F)) as H. destruct (lookup (cache s) k).
+  - rewrite H. apply ids_pres_refl.
+  - destruct H as [es [_ H]]. destruct (lookup (store s) k) as [r|]; rewrite H; cbn [fst].
+    + intros o ob Ho. exists ob. split; [|reflexivity]. unfold hget in *. rewrite loaded_heap by exact F.
+      rewrite nth_error_app1; [exact Ho | apply nth_error_Some; congruence].
+    + apply ids_pres_heap. reflexivity.
+Qed.
+
+(* ------------------------------------------- the other session methods *)
+
+Lemma save_direct_ff s o ob : plan s = [] -> hget s o = Some ob ->
+  save_direct s o = (saved s (o_id ob) (o_rec ob), Ok tt).
+Proof. intros H Ho. unfold save_direct. rewrite Ho. rewrite p_save_ff by exact H. reflexivity. Qed.
+
+Lemma save_direct_inv b base D s o : inv b base NX D s -> hok b D s o ->
+  exists s', save_direct s o = (s', Ok tt) /\ inv b base NX D s' /\ heap s' = heap s.
+Proof.
+  intros I [Hbo [ob [Ho HnD]]]. rewrite (save_direct_ff _ _ _ (i_plan _ _ _ _ _ I) Ho).
+  eexists. split; [reflexivity|]. split; [|reflexivity].
+  destruct (i_fh _ _ _ _ _ I o ob Hbo Ho). apply inv_saved; assumption.
+Qed.
+
+Lemma inv_hupd_hok b base D s o f : inv b base NX D s -> hok b D s o -> (forall r, r_ref (f r) = r_ref r) ->
+  inv b base NX D (hupd s o f) /\ hok b D (hupd s o f) o.
+Proof. intros I H Hf. split; [apply inv_hupd; assumption | apply hok_hupd; exact H]. Qed.
+
+Lemma logout_inv b base D s o : inv b base NX D s -> hok b D s o ->
+  exists s', logout s o = (s', Ok tt) /\ inv b base NX D s' /\ ids_pres s s'.
+Proof.
+  intros I H. pose proof H as [Hbo [ob [Ho HnD]]]. unfold logout. rewrite Ho.
+  destruct (r_user (o_rec ob)).
+  - destruct (inv_hupd_hok _ _ _ _ o (fun r => set_user r None) I H) as [I1 H1]; [reflexivity|].
+    destruct (save_direct_inv _ _ _ _ _ I1 H1) as (s' & E & I' & Hh). exists s'. split; [exact E|]. split; [exact I'|].
+    eapply ids_pres_trans; [apply ids_pres_hupd | apply ids_pres_heap; exact Hh].
+  - exists s. split; [reflexivity|]. split; [exact I | apply ids_pres_refl].
+Qed.
+
+(* The loop of LogOut(userID)/RefreshUser never fails and never panics: listed
+   IDs without a record are skipped. *)
+Lemma eus_inv b base D u : forall ids s, inv b base NX D s ->
+  exists s', each_user_session s ids u = (s', Ok tt) /\ inv b base NX D s' /\ ids_pres s s'.
+Proof.
+  induction ids as [|k t IH]; intros s I; cbn [each_user_session].
+  - exists s. split; [reflexivity|]. split; [exact I | apply ids_pres_refl].
+  - destruct (cache_get_inv _ _ _ _ _ k I) as (s1 & r & E & I1 & Hr).
+    pose proof (cache_get_ids s k (inv_ffnd _ _ _ _ _ I)) as Hi1. rewrite E in *. cbn [fst] in Hi1.
+    destruct r as [o|].
+    + destruct Hr as [Hbo [ob (Ho & _ & HnD & _)]].
+      assert (H1 : hok b D s1 o) by (split; [exact Hbo | exists ob; split; assumption]).
+      destruct (inv_hupd_hok _ _ _ _ o (fun r => set_user r u) I1 H1) as [I2 H2]; [reflexivity|].
+      destruct H2 as [_ [ob2 [Ho2 HnD2]]].
+      assert (F2 : ffnd (hupd s1 o (fun r => set_user r u))) by (eapply inv_ffnd; exact I2).
+      rewrite (cache_set_ff _ _ _ F2 Ho2).
+      destruct (IH (cset (hupd s1 o (fun r => set_user r u)) o ob2)) as (s' & E' & I' & Hi').
+      { apply inv_cset; assumption. }
+      exists s'. split; [exact E'|]. split; [exact I'|].
+      eapply ids_pres_trans; [exact Hi1|]. eapply ids_pres_trans; [apply ids_pres_hupd|].
+      eapply ids_pres_trans; [apply ids_pres_cset; eassumption | exact Hi'].
+    + destruct (IH s1 I1) as (s' & E' & I' & Hi'). exists s'. split; [exact E'|]. split; [exact I'|].
+      eapply ids_pres_trans; eassumption.
+Qed.
+
+Lemma logout_user_inv b base D s u : inv b base NX D s ->
+  exists s', logout_user s u = (s', Ok tt) /\ inv b base NX D s' /\ ids_pres s s'.
+Proof.
+  intro I. unfold logout_user. rewrite p_usersessions_ff by apply (i_plan _ _ _ _ _ I).
+  destruct (eus_inv b base D None (listed s u) (set_evs s ([EvUserSessions u true] ++ evs s))) as (s' & E & I' & Hi).
+  { apply inv_quiet; [repeat constructor | exact I]. }
+  exists s'. split; [exact E|]. split; [exact I'|]. eapply ids_pres_trans; [|exact Hi]. apply ids_pres_heap. reflexivity.
+Qed.
+
+Lemma refresh_user_inv b base D s u : inv b base NX D s ->
+  exists s', refresh_user s u = (s', Ok tt) /\ inv b base NX D s' /\ ids_pres s s'.
+Proof.
+  intro I. unfold refresh_user. rewrite p_usersessions_ff by apply (i_plan _ _ _ _ _ I).
+  destruct (eus_inv b base D (Some u) (listed s (fst u)) (set_evs s ([EvUserSessions (fst u) true] ++ evs s))) as (s' & E & I' & Hi).
+  { apply inv_quiet; [repeat constructor | exact I]. }
+  exists s'. split; [exact E|]. split; [exact I'|]. eapply ids_pres_trans; [|exact Hi]. apply ids_pres_heap. reflexivity.
+Qed.
+
+Lemma regenerate_inv b base D s o : inv b base NX D s -> hok b D s o ->
+  exists s', regenerate s o = (s', Ok tt, [CkLive (KGen (supply s))]) /\ inv b base NX D s' /\ hok b D s' o.
+Proof.
+  intros I [Hbo [ob [Ho HnD]]]. assert (F : ffnd s) by (eapply inv_ffnd; exact I).
+  rewrite (regenerate_ff _ _ _ F Ho). eexists. split; [reflexivity|]. split; [apply regen_inv; assumption|].
+  split; [exact Hbo|]. exists (rg_ob2 s o ob). split; [apply regen_handle; assumption|].
+  intro HD. apply (i_Dd _ _ _ _ _ I) in HD. simpl in HD. lia.
+Qed.
+
+(* LogIn never fails without faults; the cookie carries the ID drawn last. *)
+Lemma login_inv b base D s o u ex : inv b base NX D s -> hok b D s o ->
+  exists s' n, login s o u ex = (s', Ok tt, [CkLive (KGen n)]) /\ inv b base NX D s' /\ hok b D s' o /\ ~ D (KGen n).
+Proof.
+  intros I H. unfold login.
+  assert (Hpre : exists s1, (if ex then logout_user s (fst u) else let '(s0, _) := logout s o in (s0, Ok tt)) = (s1, Ok tt)
+                            /\ inv b base NX D s1 /\ hok b D s1 o).
+  { destruct ex.
+    - destruct (logout_user_inv _ _ _ _ (fst u) I) as (s1 & E & I1 & Hi). exists s1. split; [exact E|].
+      split; [exact I1 | eapply hok_ids; eassumption].
+    - destruct (logout_inv _ _ _ _ _ I H) as (s1 & E & I1 & Hi). exists s1. rewrite E. split; [reflexivity|].
+      split; [exact I1 | eapply hok_ids; eassumption]. }
+  destruct Hpre as (s1 & E1 & I1 & H1). rewrite E1.
+  destruct (inv_hupd_hok _ _ _ _ o (fun r => set_user r (Some u)) I1 H1) as [I2 H2]; [reflexivity|].
+  pose proof H2 as [Hbo [ob2 [Ho2 HnD2]]].
+  assert (F2 : ffnd (hupd s1 o (fun r => set_user r (Some u)))) by (eapply inv_ffnd; exact I2).
+  rewrite (cache_set_ff _ _ _ F2 Ho2). cbn [negb].
+  assert (I3 : inv b base NX D (cset (hupd s1 o (fun r => set_user r (Some u))) o ob2)) by (apply inv_cset; assumption).
+  assert (H3 : hok b D (cset (hupd s1 o (fun r => set_user r (Some u))) o ob2) o).
+  { eapply hok_ids; [apply ids_pres_cset; eassumption | exact H2]. }
+  destruct (regenerate_inv _ _ _ _ _ I3 H3) as (s' & E' & I' & H'). rewrite E'.
+  exists s'. eexists. split; [reflexivity|]. split; [exact I'|]. split; [exact H' | eapply inv_fresh_nD; exact I3].
 Qed.
